@@ -1194,6 +1194,108 @@ def _order_rows():
 _order_rows()
 
 
+@row("cp_als:optdims-outside-the-modes", (3,))
+def _(e):
+    X = _adata(e)
+    od = [[0, e.N + int(e.rng.integers(0, 3))], [0, -1], [], [-2]][int(e.rng.integers(0, 4))]
+    return "cp_als", ttb.cp_als, (X, 2), {"printitn": 0, "maxiters": 1, "optdims": od if e.rng.random() < 0.5 else np.array(od, dtype=int)}, X, \
+        {"optdims": "empty" if not od else "negative" if min(od) < 0 else "too-large"}
+
+
+@row("tucker_als:rank-vector-too-long", (3,))
+def _(e):
+    X = _adata(e)
+    return "tucker_als", ttb.tucker_als, (X, [2] * (e.N + int(e.rng.integers(1, 3)))), {"printitn": 0, "maxiters": 1}, X, {}
+
+
+for _k in KINDS5:
+    def _mkX(k):
+        @row(f"{k}.mttkrp:factor-with-surplus-columns", (3,))
+        def _r(e, k=k):
+            # one factor (not the skipped one) has more columns than the others
+            X = e.holder(k)
+            U = e.factors(2)
+            n = int(e.rng.integers(0, e.N))
+            m = [i for i in range(e.N) if i != n][int(e.rng.integers(0, e.N - 1))]
+            U[m] = gen.normals(e.rng, (e.shape[m], 3))
+            return f"{k}.mttkrp", X.mttkrp, (U, n), {}, X, {"widened_is_first_other": m == [i for i in range(e.N) if i != n][0]}
+
+        if k in ("ktensor", "sptensor", "tensor"):
+            @row(f"{k}.mttkrp:single-column-factor-among-wider-ones", (3,))
+            def _r2(e, k=k):
+                X = e.holder(k)
+                U = e.factors(2)
+                n = int(e.rng.integers(0, e.N))
+                m = [i for i in range(e.N) if i != n][int(e.rng.integers(0, e.N - 1))]
+                U[m] = gen.normals(e.rng, (e.shape[m], 1))
+                return f"{k}.mttkrp", X.mttkrp, (U, n), {}, X, {}
+    _mkX(_k)
+
+
+@row("tensor.mttkrps:row-counts-swapped-or-list-length", (3,))
+def _(e):
+    e.shape = (3, 4, 5)[: e.N] if e.N == 3 else e.shape
+    X = e.holder("tensor")
+    U = e.factors(2)
+    c = int(e.rng.integers(0, 3))
+    if c == 0:
+        U[1], U[2] = U[2], U[1]                       # rows 3, 5, 4 for a 3 x 4 x 5 tensor: same product
+    elif c == 1:
+        U = U[:-1]
+    else:
+        U = U + [gen.normals(e.rng, (2, 2))]
+    return "tensor.mttkrps", X.mttkrps, (U,), {}, X, {"how": ["swapped", "short", "long"][c]}
+
+
+@row("sptensor.scale:array-factor-of-another-shape", (2, 3))
+def _(e):
+    X = e.holder("sptensor")
+    d = int(e.rng.integers(0, e.N))
+    c = int(e.rng.integers(0, 3))
+    f = [gen.normals(e.rng, (e.shape[d], 2)), gen.normals(e.rng, (e.shape[d], 1)), gen.normals(e.rng, (1, e.shape[d]))][c]
+    return "sptensor.scale", X.scale, (f, np.array([d])), {}, X, {"factor": ["two-columns", "column", "row"][c]}
+
+
+@row("ttensor.reconstruct:mode-negative-or-repeated", (2, 3))
+def _(e):
+    X = e.holder("ttensor")
+    c = int(e.rng.integers(0, 3))
+    if c == 0:
+        return "ttensor.reconstruct", X.reconstruct, (np.array([0]), -1), {}, X, {"how": "negative"}
+    if c == 1:
+        return "ttensor.reconstruct", X.reconstruct, ([np.array([0]), np.array([0])], [0, 0]), {}, X, {"how": "repeated"}
+    return "ttensor.reconstruct", X.reconstruct, (np.array([0]), e.N), {}, X, {"how": "too-large"}
+
+
+@row("sptensor.__init__:value-count-differs-or-negative-subscript")
+def _(e):
+    subs = np.array([[int(e.rng.integers(0, s_)) for s_ in e.shape] for _ in range(2)])
+    subs[1] = (subs[0] + 1) % np.array(e.shape)
+    c = int(e.rng.integers(0, 3))
+    if c == 0:
+        return "sptensor.__init__", ttb.sptensor, (subs, np.array([[1.0], [2.0], [3.0]]), e.shape), {}, None, {"how": "more-values"}
+    if c == 1:
+        return "sptensor.__init__", ttb.sptensor, (subs, np.array([[1.0]]), e.shape), {}, None, {"how": "fewer-values"}
+    subs[0, int(e.rng.integers(0, e.N))] = -1
+    return "sptensor.__init__", ttb.sptensor, (subs, np.array([[1.0], [2.0]]), e.shape), {}, None, {"how": "negative-subscript"}
+
+
+@row("ktensor.update:repeated-mode", (2, 3))
+def _(e):
+    X = e.holder("ktensor")
+    R = X.ncomponents
+    m = int(e.rng.integers(0, e.N))
+    return "ktensor.update", X.update, ([m, m], gen.normals(e.rng, (2 * e.shape[m] * R,))), {}, X, {}
+
+
+@row("tensor.__setitem__:subscripts-past-the-extent-with-a-wrong-number-of-values", (2, 3))
+def _(e):
+    # the assignment would enlarge the tensor; the value count is wrong, so nothing may change
+    X = e.holder("tensor")
+    subs = np.array([[s_ + 1 for s_ in e.shape], [0] * e.N])
+    return "tensor.__setitem__", X.__setitem__, (subs, [1.0, 2.0, 3.0]), {}, X, {}
+
+
 @row("tucker_als:negative-maxiters", (3,))
 def _(e):
     X = _adata(e)
